@@ -263,3 +263,26 @@ func verifLemmaSolexaEncDec(q Qsolexa) Qsolexa { return Solexa.DecodeToQsolexa(q
 //@ func (Alphabet).Gap
 //@   pure
 //@   ensures result == gapOf(self)
+
+// ---- Repeat (C07: gap filling) ----
+//@ func (Letter).Repeat
+//@   property C07
+//@   requires count >= 0
+//@   ensures [all] len(result) == count && (forall k int :: 0 <= k && k < count ==> result[k] == l) && (fresh(result) || count == 0)
+//@   assigns fresh
+//@   loop 1 invariant 0 <= idx && idx <= len(r) && len(r) == count && fresh(r) && forall k int :: 0 <= k && k < idx ==> r[k] == l
+//@   loop 1 writes fresh
+//@   loop 2 invariant 1 <= i && len(r) == count && fresh(r) && forall k int :: 0 <= k && k < i && k < len(r) ==> r[k] == l
+//@   loop 2 writes fresh
+//@   loop 2 decreases len(r) - i
+
+//@ func (QLetter).Repeat
+//@   property C07
+//@   requires count >= 0
+//@   ensures [all] len(result) == count && (forall k int :: 0 <= k && k < count ==> result[k] == ql) && (fresh(result) || count == 0)
+//@   assigns fresh
+//@   loop 1 invariant 0 <= idx && idx <= len(r) && len(r) == count && fresh(r) && forall k int :: 0 <= k && k < idx ==> r[k] == ql
+//@   loop 1 writes fresh
+//@   loop 2 invariant 1 <= i && len(r) == count && fresh(r) && forall k int :: 0 <= k && k < i && k < len(r) ==> r[k] == ql
+//@   loop 2 writes fresh
+//@   loop 2 decreases len(r) - i
